@@ -281,14 +281,14 @@ def encode(kind: str, h: str):
     if kind == 'empty_dir':
         return {}
     if kind in ('generator', 'lazy'):
-        return [['prov', h], 1, {'k': None}]
+        return [['prov', h], 1, {'k': None}, 'sep\u2028\u2029\x85end']      # (text with unicode line separators is text)
     if kind == 'listnp':
         base = [np.frombuffer(bytes.fromhex(h), dtype=np.uint8).copy(), np.arange(3)]
         if int(h[:2], 16) % 3 == 0:
             base += [np.arange(i) + i for i in range(1, 12)]       # more than ten arrays: their order is part of the value
         return base
     if kind in ('dir', 'continues'):
-        return {'prov.txt': h, 'sub/more.bin': 'x' * 10}
+        return {'prov.txt': h, 'sub/more.bin': 'x' * 10, '.manifest.json': '{}', '.index/offsets.bin': 'o' * 4}     # (hidden entries are entries)
     if kind == 'dir_link':
         # directory result holding a RELATIVE symbolic link that points outside the directory (big shared file linked, not copied)
         return {'prov.txt': h, 'ext_link.txt': 'shared-blob'}
@@ -397,6 +397,11 @@ def lab_run(task, spec, args):
     rec['all'] = sorted(all_digests)
     # uid-tagged side records (C18) ----------------------------------------------------------------------------
     task.logger.info(f'LABMSG uid={uid} n=1 task={full}')
+    # ... and a message logged from a worker thread that run starts itself (the task's logger is the same object there)
+    import threading as _threading
+    _th = _threading.Thread(target=lambda: task.logger.info(f'LABMSG uid={uid} n=1b task={full}'))
+    _th.start()
+    _th.join()
     task.save_to_run_info({'lab_uid': uid, 'n': 1})
     task.save_to_run_info(0)        # falsy records are records too
     task.save_to_run_info({})
